@@ -18,7 +18,7 @@ theorem right_timeout_on_right_stream :
 
 /-- the data-connection wait is the `wait=True` guard of every nested worker, answering 425 -/
 theorem wait_guard_425 : ∀ v ∈ [Verb.retr, .stor, .appe, .list, .mlsd],
-    v.workerGuards.head? = some (.conn [.dataConnection] true 425) := by decide
+    v.workerGuards.filter (fun g => g != .worker) = [.conn [.dataConnection] true 425] := by decide
 
 /-- successive arrival times, each less than `d` after the previous one (the first after `a`) -/
 inductive Gaps (d : Nat) : Nat → List Nat → Prop where
